@@ -2,7 +2,8 @@
 import warnings
 from hypothesis import strategies as st
 
-from amaranth.hdl import Module, Signal, Const, Cat, Mux, ClockDomain, Instance, IOPort, IOBufferInstance, Fragment
+from amaranth.hdl import (Module, Signal, Const, Cat, Mux, ClockDomain, Instance, IOPort, IOBufferInstance, Fragment,
+                          ResetInserter, EnableInserter)
 from amaranth.hdl import SyntaxError as AmaranthSyntaxError
 from amaranth.hdl._ir import build_netlist, DriverConflict
 from amaranth.hdl._nir import CombinationalCycle
@@ -55,7 +56,10 @@ def driver_cases(draw):
             if draw(INT(0, 5)) == 0:
                 continue          # leave these bits undriven
             kind = PICK(draw, ["logic", "logic", "logic", "inst", "iob"])
-            own = {"sig": s, "lo": lo, "hi": hi, "kind": kind, "mod": draw(INT(0, nmod - 1)), "dom": PICK(draw, DOMS)}
+            # "form": how the target is spelled (a plain slice, a slice of a sign reinterpretation, a reinterpreted
+            # slice, a part select with constant offset, a concatenation of two slices) - the addressed bits are the same
+            own = {"sig": s, "lo": lo, "hi": hi, "kind": kind, "mod": draw(INT(0, nmod - 1)), "dom": PICK(draw, DOMS),
+                   "form": draw(INT(0, 5))}
             placements.append(own)
             if kind == "logic" and draw(INT(0, 3)) == 0:
                 # the same owner assigning an overlapping range again: legal
@@ -63,8 +67,10 @@ def driver_cases(draw):
                 placements.append(dict(own, lo=lo2, hi=hi2))
     mut = PICK(draw, ["none", "none", "grow", "move-module", "move-domain", "overlap-inst", "overlap-iob", "second-inst",
                       "dup-other-owner"])
+    # control inserters around submodules: they act on the bits the module drives and must not claim others
+    wraps = [PICK(draw, [None, None, "R", "E"]) for _ in range(nmod)]
     return {"widths": widths, "nmod": nmod, "placements": placements, "mutation": mut,
-            "r": [draw(INT(0, 10 ** 6)) for _ in range(3)]}
+            "r": [draw(INT(0, 10 ** 6)) for _ in range(3)], "wraps": wraps}
 
 
 def mutate(case):
@@ -125,18 +131,32 @@ def build_drivers(case, pl):
     ins = [Signal(w, name=f"in{i}") for i, w in enumerate(widths)]
     mods = [Module() for _ in range(nmod)]
     mods[0].domains += [ClockDomain("sync"), ClockDomain("other")]
+    wraps = case.get("wraps") or [None] * nmod
+    ctl = Signal(name="ctl")
     for i in range(1, nmod):
-        setattr(mods[MODS[i]].submodules, f"m{i}", mods[i])
+        sub = mods[i]
+        if wraps[i] == "R":
+            sub = ResetInserter({"sync": ctl, "other": ctl})(sub)
+        elif wraps[i] == "E":
+            sub = EnableInserter({"sync": ctl, "other": ctl})(sub)
+        setattr(mods[MODS[i]].submodules, f"m{i}", sub)
     for i, p in enumerate(pl):
         m = mods[p["mod"]]
         tgt = sigs[p["sig"]][p["lo"]:p["hi"]] if (p["lo"], p["hi"]) != (0, widths[p["sig"]]) else sigs[p["sig"]]
         if p["kind"] == "logic":
+            sg, lo, hi = sigs[p["sig"]], p["lo"], p["hi"]
+            form = p.get("form", 0)
+            if form == 1: tgt = sg.as_unsigned()[lo:hi]
+            elif form == 2: tgt = sg.as_signed()[lo:hi]
+            elif form == 3: tgt = sg[lo:hi].as_unsigned()
+            elif form == 4: tgt = sg.bit_select(lo, hi - lo)
+            elif form == 5 and hi - lo >= 2: tgt = Cat(sg[lo:lo + 1], sg[lo + 1:hi])
             m.d[p["dom"]] += tgt.eq(ins[p["sig"]][p["lo"]:p["hi"]])
         elif p["kind"] == "inst":
             m.submodules += Instance("blk", o_q=tgt, i_d=ins[p["sig"]])
         else:
             m.submodules += IOBufferInstance(IOPort(p["hi"] - p["lo"], name=f"pad{i}"), i=tgt)
-    return mods[0], sigs + ins
+    return mods[0], sigs + ins + [ctl]
 
 
 def driver_body(ctx, case):
@@ -168,6 +188,8 @@ def driver_body(ctx, case):
     if not results[1] and mut != "none": keys.append("drv:near-miss-still-legal")
     if any(p["kind"] == "inst" for p in case["placements"]): keys.append("drv:instance-output")
     if any(p["kind"] == "iob" for p in case["placements"]): keys.append("drv:iobuffer-input")
+    if any(p["kind"] == "logic" and p.get("form") in (1, 2) for p in case["placements"]): keys.append("drv:slice-of-sign-reinterpretation")
+    if any(w for w in (case.get("wraps") or [])[1:]): keys.append("drv:control-inserter-around-submodule")
     ctx.note(case, mut != "none", *keys, evals=2)
 
 
@@ -323,6 +345,23 @@ def cycle_cases(draw):
     widths = [draw(INT(1, 4)) for _ in range(nsig)]
     owner_mod = [draw(INT(0, 1)) for _ in range(nsig)]
     style = draw(INT(0, 2))      # 0: biased feed-forward (mostly acyclic), 1: free, 2: feed-forward then one back edge
+    if draw(INT(0, 5)) == 0:
+        # style 3: a loop through ONE output bit of a word-level cell whose other output bits are used elsewhere, with
+        # the statements in any order (the traversal may meet the cell through the other bit first)
+        wx, wy = draw(INT(2, 4)), draw(INT(2, 3))
+        widths = [wx, wy, 1, 2]
+        x = ["bits", 0, 0, wx]
+        op = PICK(draw, [["bsel", x, ["bits", 3, 0, 2], wy], ["bsel", x, ["const", 0, 1], wy], ["+", x, ["const", 1, 1]],
+                         ["-", x, ["bits", 3, 0, 2]], ["shlv", x, ["bits", 3, 0, 2]]])
+        j = draw(INT(0, wy - 1))                       # the output bit the loop goes through
+        k = PICK(draw, [b for b in range(wy) if b != j])
+        i = draw(INT(0, wx - 1)) if op[0] in ("+", "-") and False else 0
+        body = [["assign", 1, 0, wy, op],
+                ["assign", 2, 0, 1, PICK(draw, [["~", ["bits", 1, k, k + 1]], ["bits", 1, k, k + 1],
+                                                 ["^", ["bits", 1, k, k + 1], ["bits", 3, 0, 1]]])],
+                ["assign", 0, i, i + 1, ["bits", 1, j, j + 1]]]
+        stmts = list(draw(st.permutations(body)))
+        return {"widths": widths, "owner_mod": [draw(INT(0, 1)) for _ in widths], "stmts": stmts, "style": 3}
     stmts = []
     def assign(allow_ctrl=True):
         s = draw(INT(0, nsig - 1))
@@ -526,5 +565,5 @@ def parts(tier):
 
 REQUIRED = ["drv:legal", "drv:conflicting", "drv:near-miss-still-legal", "drv:instance-output", "drv:iobuffer-input",
             "drv:mutation-grow", "drv:mutation-move-module", "drv:mutation-move-domain", "drv:mutation-overlap-inst",
-            "drv:mutation-second-inst", "cyc:acyclic", "cyc:acyclic-with-intra-signal-feeding", "cyc:cyclic",
+            "drv:mutation-second-inst", "drv:slice-of-sign-reinterpretation", "drv:control-inserter-around-submodule", "cyc:acyclic", "cyc:acyclic-with-intra-signal-feeding", "cyc:cyclic",
             "cyc:cycle-through>=2-signals", "cyc:with-conditions", "cyc:two-modules"]
